@@ -46,6 +46,13 @@ package regexp2
 //@   ensures[errkind] err != nil ==> err == ErrBacktrackingStackLimit
 //@   ensures[trackdepth] len(r.runtrack) - r.Runtrackpos == old(len(r.runtrack) - r.Runtrackpos)
 //@   ensures[stackdepth] len(r.runstack) - r.Runstackpos == old(len(r.runstack) - r.Runstackpos)
+//@   loop 0:
+//@     invariant 0 <= r.Runtrackpos && r.Runtrackpos <= len(r.runtrack)
+//@     invariant StackWithinLimit(r)
+//@     invariant len(r.runtrack) - r.Runtrackpos == old(len(r.runtrack) - r.Runtrackpos)
+//@     invariant r.Runstackpos >= 4*r.runtrackcount && len(r.runstack) - r.Runstackpos == old(len(r.runstack) - r.Runstackpos)
+//@     invariant r.re == old(r.re) && r.runtrackcount == old(r.runtrackcount)
+//@     decreases 4*r.runtrackcount - r.Runtrackpos
 
 // Storage allocated by initMatch: at least 8 slots per backtracking instruction unless capped by the limit.
 //@ spec func StackAlloc(r *Runner) bool = len(r.runstack) >= 8*r.runtrackcount && len(r.runstack) >= 1 && (len(r.runtrack) >= 8*r.runtrackcount || (r.re.optimizations.MaxBacktrackingStackSize >= 0 && len(r.runtrack) == r.re.optimizations.MaxBacktrackingStackSize))
